@@ -12,6 +12,7 @@ import Gengo.Driver.Assemble
 import Gengo.Driver.RawNamer
 import Gengo.Driver.Flatten
 import Gengo.Driver.Universe
+import Gengo.Driver.Comments
 open Gengo Gengo.Proto
 
 /-- state of the stateful components (one history at a time per component) -/
@@ -28,6 +29,7 @@ def dispatch (s : DState) (f : List Str) : DState × Str :=
   | c :: rest =>
     if c = str "tags" then (s, Driver.Tags.handle rest)
     else if c = str "json" then (s, Driver.JsonTag.handle rest)
+    else if c = str "cm" then (s, Driver.Comments.handle rest)
     else if c = str "flat" then (s, Driver.Flatten.handle rest)
     else if c = str "raw" then (s, Driver.RawNamer.handle rest)
     else if c = str "asm" then (s, Driver.Assemble.handle rest)
